@@ -198,9 +198,11 @@ func (b *unboundBuilder) Parse(s string) (*Literal, error) {
 	if raw[0] != '"' {
 		return nil, fmt.Errorf("literal.Parse: text encoded literals must start with \", missing in %s", raw)
 	}
-	idx := strings.Index(raw, "\"^^type:")
-	if idx < 0 {
-		return nil, fmt.Errorf("literal.Parse: text encoded literals must have a type; missing in %s", raw)
+	// The type name cannot contain a quote: the last occurrence ends the value
+	// (a text value may contain the same characters).
+	idx := strings.LastIndex(raw, "\"^^type:")
+	if idx < 1 {
+		return nil, fmt.Errorf("literal.Parse: text encoded literals must have a quoted value and a type; missing in %s", raw)
 	}
 	v := raw[1:idx]
 	t := raw[idx+len("\"^^type:"):]
@@ -226,6 +228,9 @@ func (b *unboundBuilder) Parse(s string) (*Literal, error) {
 	case "text":
 		return b.Build(Text, v)
 	case "blob":
+		if len(v) < 2 || v[0] != '[' || v[len(v)-1] != ']' {
+			return nil, fmt.Errorf("literal.Parse: a blob is a bracketed list of bytes, got %q", v)
+		}
 		values := v[1 : len(v)-1]
 		if values == "" {
 			return b.Build(Blob, []byte{})
